@@ -1164,3 +1164,9 @@ and exhibited clearly, with a label attached.
         assert_eq!(3, match_count);
     }
 }
+
+#[cfg(kani)]
+mod verif_kani {
+    use super::*;
+    include!(concat!(env!("RG_VERIF_KANI_DIR"), "/printer/summary.rs"));
+}
